@@ -1055,6 +1055,9 @@ func (e *Exec) guardedAccess(f *frame, a *Addr, h *Heap, g string, in ssa.Instru
 	if !ok || e.specDepth > 0 {
 		return nil
 	}
+	if e.isPrivateRef(a.Ref) {
+		return nil // an object this function allocated and has not published yet: nobody else can reach it
+	}
 	gu := &guardUse{gi: gi, mref: e.refTerm(&Addr{Ref: a.Ref, Comp: gi.mutexComp})}
 	if mt, ok := a.Typ.Underlying().(*types.Map); ok {
 		gi.mapType = mt
@@ -1066,6 +1069,10 @@ func (e *Exec) guardedAccess(f *frame, a *Addr, h *Heap, g string, in ssa.Instru
 // guardObl emits "the protecting mutex is held here".
 func (e *Exec) guardObl(f *frame, gu *guardUse, h *Heap, g string, in ssa.Instruction, write bool) {
 	if gu == nil || e.specDepth > 0 || e.quiet > 0 || (gu.gi.rule.WriteOnly && !write) || !e.wantClause(gu.gi.clause) {
+		return
+	}
+	if e.topSpec != nil && e.topSpec.LockExempt != "" {
+		e.eng.assumes["lock rules not applied in "+e.topSpec.Key+" ("+e.topSpec.LockExempt+")"] = true
 		return
 	}
 	e.compDecl("LOCKS", "(Array Ref Bool)")
